@@ -4,7 +4,7 @@
    GenTmpl.v (XPath::getTargetData, getMatchScoreValue, the dispatch of addTemplate), rebuilt
    from /repo on every run.  Pattern matching is abstract: [pmatch alt n]. *)
 From Coq Require Import List Bool ZArith NArith Lia Sorting.Sorted.
-Require Import XV.TmplDefs XV.GenTmpl XV.TmplModel XV.TmplSelect XV.TmplNq XV.TmplTree XV.TmplShape.
+Require Import XV.TmplDefs XV.GenTmpl XV.TmplModel XV.TmplSelect XV.TmplNq XV.TmplTree XV.TmplShape XV.TmplBest.
 Import ListNotations.
 Local Open Scope Z_scope.
 
@@ -57,10 +57,38 @@ Theorem find_template_spec_partial :
 Proof. exact find_template_spec_lemma. Qed.
 Print Assumptions find_template_spec_partial.
 
+(* the same as an equation: [best_5_5] is the executable maximum of (precedence, priority,
+   position) over the applicable rules; it satisfies [spec_choice], and [spec_choice] has a single
+   answer because (precedence, position) identifies the template *)
+Theorem best_5_5_is_the_specified_choice :
+  forall (node : Type) (pmatch : N -> node -> bool) rules mode n,
+  spec_choice node pmatch rules mode n (option_map r_tmpl (best_5_5 node pmatch rules mode n)).
+Proof. exact best_5_5_spec. Qed.
+Print Assumptions best_5_5_is_the_specified_choice.
+
+Theorem find_template_eq_best_partial :
+  forall (node : Type) (key_of : node -> nkey) (pmatch : N -> node -> bool) s mode n,
+  uniform_union_priorities s = true ->
+  filed_where_matching node key_of pmatch s n = true ->
+  find_template node key_of pmatch true (compile s) mode n false =
+  option_map r_tmpl (best_5_5 node pmatch (rules_of s) mode n) /\
+  find_template node key_of pmatch true (compile s) mode n true =
+  option_map r_tmpl (best_5_5 node pmatch (imported_rules s) mode n).
+Proof.
+  intros node key_of pmatch s mode n Hu Hf. split.
+  - apply (spec_choice_unique node pmatch (postorder s) 0%nat mode n).
+    + apply find_template_spec_lemma; assumption.
+    + apply best_5_5_spec.
+  - apply (spec_choice_unique node pmatch (removelast (postorder s)) 0%nat mode n).
+    + apply apply_imports_lemma; assumption.
+    + apply best_5_5_spec.
+Qed.
+Print Assumptions find_template_eq_best_partial.
+
 (* a stylesheet used by the witnesses: match="a" then match="a[b]|*"; local name a = 5 *)
-Definition alt_a : alt := {| a_pat := 0; a_target := {| tg_name := TNName 5; tg_type := TTElement |}; a_score := ScQName |}.
-Definition alt_ab : alt := {| a_pat := 1; a_target := {| tg_name := TNName 5; tg_type := TTElement |}; a_score := ScOther |}.
-Definition alt_star : alt := {| a_pat := 2; a_target := {| tg_name := TNAny; tg_type := TTElement |}; a_score := ScNodeTest |}.
+Definition alt_a : alt := {| a_pat := 0; a_target := {| tg_name := TNName 5; tg_type := TTElement |}; a_score := ScQName; a_rscore := ScQName |}.
+Definition alt_ab : alt := {| a_pat := 1; a_target := {| tg_name := TNName 5; tg_type := TTElement |}; a_score := ScOther; a_rscore := ScOther |}.
+Definition alt_star : alt := {| a_pat := 2; a_target := {| tg_name := TNAny; tg_type := TTElement |}; a_score := ScNodeTest; a_rscore := ScNodeTest |}.
 Definition k1_t1 : template := {| t_id := 1; t_mode := None; t_prio := None; t_text := 0; t_alts := [alt_a] |}.
 Definition k1_t2 : template := {| t_id := 2; t_mode := None; t_prio := None; t_text := 1; t_alts := [alt_ab; alt_star] |}.
 Definition k1_sheet : sheet := Sheet [ITmpl k1_t1; ITmpl k1_t2] [].
@@ -91,7 +119,7 @@ Print Assumptions find_template_spec_refuted.
 
 (* K2: match="key(..)" (or id(..)) is filed under the element and attribute wildcards only; a
    text node it matches gets no template *)
-Definition alt_key : alt := {| a_pat := 0; a_target := {| tg_name := TNAny; tg_type := TTAny |}; a_score := ScOther |}.
+Definition alt_key : alt := {| a_pat := 0; a_target := {| tg_name := TNAny; tg_type := TTAny |}; a_score := ScOther; a_rscore := ScOther |}.
 Definition k2_t : template := {| t_id := 1; t_mode := None; t_prio := None; t_text := 0; t_alts := [alt_key] |}.
 Definition k2_sheet : sheet := Sheet [ITmpl k2_t] [].
 
@@ -110,7 +138,7 @@ Print Assumptions find_template_spec_refuted_function_pattern.
 
 (* the hypotheses of the partial theorem are satisfiable on a non-trivial instance: an import
    tree (main imports A then B; A imports C), an include, ties, a union with explicit priority *)
-Definition alt_b : alt := {| a_pat := 3; a_target := {| tg_name := TNName 6; tg_type := TTElement |}; a_score := ScQName |}.
+Definition alt_b : alt := {| a_pat := 3; a_target := {| tg_name := TNName 6; tg_type := TTElement |}; a_score := ScQName; a_rscore := ScQName |}.
 Definition ex_t (id : N) (p : option Z) (alts : list alt) : template :=
   {| t_id := id; t_mode := None; t_prio := p; t_text := id; t_alts := alts |}.
 Definition ex_sheet : sheet :=
@@ -210,7 +238,7 @@ Print Assumptions quiet_eq_nonquiet_refuted.
    testing it *)
 Definition st_t1 : template := {| t_id := 1; t_mode := None; t_prio := None; t_text := 7; t_alts := [alt_a] |}.
 Definition st_t2 : template := {| t_id := 2; t_mode := None; t_prio := None; t_text := 7;
-                                  t_alts := [{| a_pat := 9; a_target := a_target alt_a; a_score := ScQName |}] |}.
+                                  t_alts := [{| a_pat := 9; a_target := a_target alt_a; a_score := ScQName; a_rscore := ScQName |}] |}.
 Theorem quiet_eq_nonquiet_refuted_same_text : exists s mode (n : N),
   uniform_union_priorities s = true /\
   find_template N k1_key (fun p _ => (p =? 0)%N) false (compile s) mode n false <>
@@ -218,11 +246,24 @@ Theorem quiet_eq_nonquiet_refuted_same_text : exists s mode (n : N),
 Proof. exists (Sheet [ITmpl st_t1; ITmpl st_t2] []), None, 0%N. split; [reflexivity|]. vm_compute. discriminate. Qed.
 Print Assumptions quiet_eq_nonquiet_refuted_same_text.
 
-(* under the K1 guard and "same match string and priority => same behaviour on the node" the two
-   paths agree, for apply-templates and apply-imports alike *)
+(* third refutation: match="a[@x]" (default priority 0.5, but run-time score 0: stepPattern keeps
+   the node test's score under a non-positional predicate) against match="a" priority="0.25" *)
+Definition alt_ax : alt := {| a_pat := 1; a_target := a_target alt_a; a_score := ScOther; a_rscore := ScQName |}.
+Definition rt_t1 : template := {| t_id := 1; t_mode := None; t_prio := Some 250; t_text := 0; t_alts := [alt_a] |}.
+Definition rt_t2 : template := {| t_id := 2; t_mode := None; t_prio := None; t_text := 1; t_alts := [alt_ax] |}.
+Theorem quiet_eq_nonquiet_refuted_runtime_score : exists s mode (n : N),
+  uniform_union_priorities s = true /\ same_text_same_match N (fun _ _ => true) s n = true /\
+  find_template N k1_key (fun _ _ => true) false (compile s) mode n false <>
+  find_template N k1_key (fun _ _ => true) true (compile s) mode n false.
+Proof. exists (Sheet [ITmpl rt_t1; ITmpl rt_t2] []), None, 0%N. split; [reflexivity|]. split; [reflexivity|]. vm_compute. discriminate. Qed.
+Print Assumptions quiet_eq_nonquiet_refuted_runtime_score.
+
+(* under the K1 guard, "run-time score = default priority" and "same match string and priority
+   => same behaviour on the node" the two paths agree, for apply-templates and apply-imports alike *)
 Theorem quiet_eq_nonquiet_partial :
   forall (node : Type) (key_of : node -> nkey) (pmatch : N -> node -> bool) s mode n only,
   uniform_union_priorities s = true ->
+  runtime_scores_agree s = true ->
   same_text_same_match node pmatch s n = true ->
   find_template node key_of pmatch false (compile s) mode n only =
   find_template node key_of pmatch true (compile s) mode n only.
@@ -230,6 +271,7 @@ Proof. exact quiet_eq_nonquiet_lemma. Qed.
 Print Assumptions quiet_eq_nonquiet_partial.
 
 Example nonquiet_guards_satisfiable :
+  runtime_scores_agree ex_sheet = true /\
   same_text_same_match N ex_match ex_sheet 0%N = true /\
   same_text_same_match N ex_match ex_sheet 1%N = true /\
   option_map t_id (find_template N ex_key ex_match false (compile ex_sheet) None 1%N false) = Some 11%N.
